@@ -225,6 +225,12 @@ EmitKeepUp(cfg, obs) ==
     \A j \in 1..Len(obs.got["out"]) :
        ((\A i \in 1..j : obs.recvAt["out"][i] <= (i - 1) * cfg.freq) /\ (~obs.cancelled \/ j <= obs.gotAtCancel["out"]))
          => obs.gotAt["out"][j] = j * cfg.freq
+\* "both stop ... after cancel": a generator whose consumer keeps receiving after the cancel does not go on for ever.  Each
+\* further delivery needs the runtime to pick the send arm of `select { out <- v | <-ctx.Done() }` although the other arm is
+\* ready too; Go picks uniformly, so 40 further deliveries beyond what the buffer held have probability 2^-40.
+GenStops(cfg, obs) ==
+  (cfg.kind \in {"Emit", "Unfold"} /\ obs.cancelled) =>
+     \A o \in obs.outs : Len(obs.got[o]) - obs.gotAtCancel[o] <= cfg.cap + 42
 \* both stop and close their channels after cancel (with Settle2)
 GenSettle(cfg, obs) ==
   (cfg.kind \in {"Emit", "Unfold"} /\ cfg.mode = "lift" /\ obs.quiet /\ obs.pending = 0 /\ Drained(obs)
@@ -271,7 +277,7 @@ Verdicts(cfg, obs) ==
    Settle1 |-> Settle1(cfg, obs), Settle2 |-> Settle2(cfg, obs), LiftCloses |-> LiftCloses(cfg, obs),
    PipePrefix |-> PipePrefix(cfg, obs), PipeComplete |-> PipeComplete(cfg, obs), PipeSettle |-> PipeSettle(cfg, obs), PipeGen |-> PipeGen(cfg, obs),
    NeverBlocksSender |-> NeverBlocksSender(cfg, obs), LosslessAfterCancel |-> LosslessAfterCancel(cfg, obs), NewSettle |-> NewSettle(cfg, obs),
-   GenExact |-> GenExact(cfg, obs), EmitPaced |-> EmitPaced(cfg, obs), EmitKeepUp |-> EmitKeepUp(cfg, obs), GenSettle |-> GenSettle(cfg, obs),
+   GenExact |-> GenExact(cfg, obs), GenStops |-> GenStops(cfg, obs), EmitPaced |-> EmitPaced(cfg, obs), EmitKeepUp |-> EmitKeepUp(cfg, obs), GenSettle |-> GenSettle(cfg, obs),
    JoinPerInput |-> JoinPerInput(cfg, obs), JoinNothingInvented |-> JoinNothingInvented(cfg, obs), JoinComplete |-> JoinComplete(cfg, obs),
    ThrottleWindow |-> ThrottleWindow(cfg, obs), ThrottlePaced |-> ThrottlePaced(cfg, obs)]
 Failing(cfg, obs) == LET v == Verdicts(cfg, obs) IN {p \in DOMAIN v : ~v[p]}
